@@ -177,6 +177,40 @@ func siteWeight(p *Prog, fn *ssa.Function) int {
 		}
 	}
 	if n == 0 {
+		// a codec method the library never calls itself (encoding/json does, by reflection): it stands for every
+		// field of a module struct that has its receiver's type
+		if fn.Signature.Recv() != nil && (fn.Name() == "UnmarshalJSON" || fn.Name() == "MarshalJSON") {
+			rt := derefType(fn.Signature.Recv().Type())
+			k := 0
+			for _, pk := range p.ScopePkgs() {
+				sc := pk.Types.Scope()
+				for _, name := range sc.Names() {
+					tn, ok := sc.Lookup(name).(*types.TypeName)
+					if !ok {
+						continue
+					}
+					var count func(t types.Type, depth int)
+					count = func(t types.Type, depth int) {
+						st, ok := t.Underlying().(*types.Struct)
+						if !ok || depth > 3 {
+							return
+						}
+						for i := 0; i < st.NumFields(); i++ {
+							ft := st.Field(i).Type()
+							if types.Identical(derefType(ft), rt) {
+								k++
+							} else if _, isNamed := derefType(ft).(*types.Named); !isNamed {
+								count(derefType(ft), depth+1) // anonymous nested structs
+							}
+						}
+					}
+					count(tn.Type(), 0)
+				}
+			}
+			if k > 0 {
+				return k
+			}
+		}
 		return 1
 	}
 	return n
